@@ -363,7 +363,7 @@ impl Property for C16 {
         }
     }
     fn rule(&self) -> &'static str {
-        "scenario = machine + initial content (ROM boot / random program / repository snapshot) + frame-keyed input script (keys, joysticks, mouse, deck commands, pokes, tape insertion) + K frames, executed under 3-5 drivings (FrameCount(1); FrameCount(n_i); Max mode with scripted stopwatch readings; breakpoint stops every n-th instruction with resume; sound off (by settings or toggled through set_sound at host-call boundaries); fast-load setting given in the settings or through set_fast_load; drain always/sometimes/never; asset delivered by BufferCursor / chunking asset / GzipAsset / FileAsset / 1-byte reads); distinct = (content kind, machine, driving mode, parameter bucket, asset kind, drain, sound)"
+        "scenario = machine + initial content (ROM boot / random program / repository snapshot) + frame-keyed input script (keys, joysticks, mouse, deck commands, pokes, tape insertion) + K frames, executed under 3-5 drivings (FrameCount(1); FrameCount(n_i); Max mode with scripted stopwatch readings; breakpoint stops every n-th instruction with resume; sound off (by settings or toggled through set_sound at host-call boundaries); fast-load setting given in the settings or through set_fast_load; drain always/sometimes/never; asset delivered by BufferCursor / chunking asset / GzipAsset / FileAsset / 1-byte reads); distinct = (content kind, machine, driving mode, parameter bucket, asset kind, drain, sound) Drivings that never stop may have no debug interface at all; event 13 = set_fast_load between frames; event 12 = a second snapshot mid-run."
     }
     fn state_measure(&self) -> &'static str {
         "distinct full-state hashes (registers, hidden CPU state, all RAM, paging, clock, border, both frame buffers) observed at compared frame boundaries"
